@@ -30,13 +30,23 @@ static void G_futex_wake(int* addr, int n) {
   __CPROVER_assert(n == INT_MAX, "FUTEX_WAKE wakes all waiters");
   g_wakes++; g_wake_after_store = 1;
 }
-static void G_futex_wait(int* addr, int expected) {
+int g_errno;   /* errno after the futex call: arbitrary */
+#undef errno
+#define errno g_errno
+#include <errno.h>
+#undef errno
+#define errno g_errno
+int nondet_int(void);
+static int G_futex_wait(int* addr, int expected) {
   /* obligation (ii) */
   __CPROVER_assert(g_loaded && expected == g_last_loaded, "FUTEX_WAIT is called with the value this call has just loaded from the word");
   __CPROVER_assert(expected != g_completed, "a waiter never parks on the completed value");
   g_waits++;
   /* while parked (or on a spurious return) other threads may change the word arbitrarily */
   int nd; *addr = nd; g_loaded = 0;
+  /* return value and errno are arbitrary: woken (0), EAGAIN (value changed), EINTR (signal), spurious */
+  g_errno = nondet_int();
+  return nondet_int() ? -1 : 0;
 }
 
 /* ---------------- CompletionEventImpl ---------------- */
@@ -52,7 +62,7 @@ __CPROVER_requires(g_completed == completedStatus)
 /* (iii) returns only after a load of the completed value, with acquire ordering */
 __CPROVER_ensures(g_loaded && g_last_loaded == completedStatus && MO_HAS_ACQUIRE(g_last_mo))
 __CPROVER_ensures(g_stores == __CPROVER_old(g_stores) && g_wakes == __CPROVER_old(g_wakes))
-__CPROVER_assigns(self->status_, g_last_loaded, g_loaded, g_waits, g_last_mo)
+__CPROVER_assigns(self->status_, g_last_loaded, g_loaded, g_waits, g_last_mo, g_errno)
 #include "CEI_wait.body.inc"
 
 /* ---------------- Latch ---------------- */
@@ -73,7 +83,7 @@ __CPROVER_requires(self->impl_.status_ >= 1 && g_completed == 0)
 /* the last arriver wakes everybody; every other arriver returns only after loading 0 */
 __CPROVER_ensures(__CPROVER_old(self->impl_.status_) == 1 ==> (self->impl_.status_ == 0 && g_wakes > __CPROVER_old(g_wakes) && g_wake_after_store))
 __CPROVER_ensures(__CPROVER_old(self->impl_.status_) > 1 ==> (g_loaded && g_last_loaded == 0))
-__CPROVER_assigns(self->impl_.status_, g_stores, g_wakes, g_wake_after_store, g_last_mo, g_last_loaded, g_loaded, g_waits)
+__CPROVER_assigns(self->impl_.status_, g_stores, g_wakes, g_wake_after_store, g_last_mo, g_last_loaded, g_loaded, g_waits, g_errno)
 #include "Latch_arrive_and_wait.body.inc"
 
 bool Latch_try_wait(const Latch* self)
@@ -84,11 +94,10 @@ __CPROVER_assigns(g_last_loaded, g_loaded, g_last_mo)
 void Latch_wait(const Latch* self)
 __CPROVER_requires(g_completed == 0)
 __CPROVER_ensures(g_loaded && g_last_loaded == 0)
-__CPROVER_assigns(self->impl_.status_, g_last_loaded, g_loaded, g_waits, g_last_mo)
+__CPROVER_assigns(self->impl_.status_, g_last_loaded, g_loaded, g_waits, g_last_mo, g_errno)
 #include "Latch_wait.body.inc"
 
 #ifdef VERIF_CBMC
-int nondet_int(void);
 #define GHOST_RESET() (g_stores = 0, g_wakes = 0, g_waits = 0)
 void h_CEI_notify(void) { GHOST_RESET(); CompletionEventImpl s; int status0 = nondet_int(); s.status_ = status0; int c; CEI_notify(&s, c); }
 void h_CEI_wait(void) { GHOST_RESET(); CompletionEventImpl s; int status0 = nondet_int(); s.status_ = status0; int c; CEI_wait(&s, c); }
